@@ -106,10 +106,17 @@ def detect_scratch(wt, n, props):
         binp = "/tmp/mhsim-target-%s/release/mhsim" % tag
         for p in props:
             t0 = time.time()
-            rc, o = sh("%s run --prop %s --tier quick --no-evidence --verif-dir %s" % (binp, p, tmp))
+            scale = os.environ.get("SEEDED_RUNS_SCALE")
+            extra = (" --runs-scale %s" % scale) if scale else ""
+            rc, o = sh("%s run --prop %s --tier quick --no-evidence --verif-dir %s%s" % (binp, p, tmp, extra))
             cls = [l.strip() for l in o.splitlines() if l.strip().startswith("class=")]
             det = [l.strip() for l in o.splitlines() if l.strip().startswith("detail=")]
             res[p] = {"exit": rc, "class": cls[:1], "detail": [x[:300] for x in det[:1]], "s": round(time.time() - t0, 1)}
+            if os.environ.get("SEEDED_KEEP_REPLAYS") and rc != 0:
+                import glob
+                os.makedirs(os.environ["SEEDED_KEEP_REPLAYS"], exist_ok=True)
+                for f in glob.glob(os.path.join(tmp, "replays", "*.json")):
+                    shutil.copy(f, os.environ["SEEDED_KEEP_REPLAYS"])
     finally:
         sh("git -C /repo worktree remove --force %s" % scratch)
         shutil.rmtree(simcopy, ignore_errors=True)
